@@ -19,6 +19,7 @@ import (
 	"strconv"
 	"strings"
 	"sync"
+	"time"
 )
 
 var shardIdx, shardCnt = 0, 1
@@ -77,7 +78,18 @@ func main() {
 	}
 	w := bufio.NewWriterSize(os.Stdout, 1<<20)
 	defer w.Flush()
+	// keep one timer-blocked goroutine alive: the Go runtime's "all goroutines are asleep" detector must not
+	// kill the harness when a (mutated) flyt deadlocks; watchdogs report that instead
+	go func() {
+		for {
+			time.Sleep(time.Hour)
+		}
+	}()
 	switch os.Args[1] {
+	case "stress":
+		w.Flush()
+		stressMain(os.Args[2:])
+		return
 	case "gen":
 		if len(os.Args) < 5 {
 			fmt.Fprintln(os.Stderr, "usage: harness gen <property> <tier> <seed>")
@@ -135,6 +147,14 @@ func replayLine(l line, jl *jobList) bool {
 		}
 		jl.addBind(sc)
 		return true
+	case "pool":
+		var sc PoolSc
+		if err := json.Unmarshal(l.Sc, &sc); err != nil {
+			fmt.Fprintln(os.Stderr, "bad scenario:", err)
+			os.Exit(2)
+		}
+		jl.addPool(sc, nil)
+		return true
 	case "gbatch":
 		var sc GBatchSc
 		if err := json.Unmarshal(l.Sc, &sc); err != nil {
@@ -178,6 +198,9 @@ func generate(prop, tier string, seed uint64, jl *jobList) int {
 		genBind(r, thorough, jl.addBind)
 	case "batchseq":
 		genBatchSeq(r, thorough, jl.addFlow)
+	case "pool":
+		genPool(r, thorough, shardIdx, shardCnt, jl)
+		return 1
 	case "gbatch":
 		genGBatch(r, thorough, shardIdx, shardCnt, jl)
 		return 1
